@@ -37,8 +37,11 @@ const (
 )
 
 const (
-	MaxG    = 1 << 13
-	tabSize = 1 << 15 // open addressing, > 2*MaxG
+	MaxG    = 1 << 17 // goroutines ever started in one run
+	gChunk  = 64
+	tabBits = 18
+	tabSize = 1 << tabBits // open addressing over g addresses
+	tChunk  = 64
 )
 
 const (
@@ -71,6 +74,8 @@ type G struct {
 	pc        uintptr // call site of the yield it is parked at
 	prio      int     // PCT priority
 	fn        func()
+	livePos   int32
+	noYield   int  // >0: inside Atomically; yields do not park
 	stalled   bool // set when a stBlockedOrStall wait was ended by a stall
 	Daemon    bool // harness helper goroutine: not counted as live for leak purposes
 }
@@ -140,10 +145,15 @@ type Sim struct {
 	cfg Config
 	ch  Chooser
 
-	mu  sync.Mutex // real; protects tab during concurrent self-registration; never held while parked
-	gs  [MaxG]G
-	ng  int
-	tab [tabSize]tabEntry
+	mu sync.Mutex // real; protects tab during concurrent self-registration; never held while parked
+	// Storage is chunked and allocated on first touch so that a small run pays
+	// for a small simulator; goroutine ids of one run are nearly consecutive, so
+	// the id table (indexed by id modulo its size) touches few chunks.
+	gchunks [MaxG / gChunk]*[gChunk]G
+	ng      int
+	tchunks [tabSize / tChunk]*[tChunk]tabEntry
+	live    []int32 // indexes of goroutines that have not finished
+	nlive   int
 
 	wakeSched chan struct{}
 	steps     int64
@@ -155,8 +165,8 @@ type Sim struct {
 	poison    bool
 	start     time.Time
 
-	enabled [MaxG]int32
-	cand    [MaxG]int32
+	enabled []int32
+	cand    []int32
 	nen     int
 
 	pctChange [8]int64
@@ -193,34 +203,49 @@ var Heartbeat atomic.Int64
 //go:norace
 func Active() bool { return cur.Load() != nil }
 
+// goid identifies the calling goroutine. The address of its g is unique among
+// live goroutines; a finished goroutine's g may be reused, which lookup
+// detects (the stale entry points at a finished G) and register overwrites.
+//
 //go:norace
-func goid() uint64 {
-	var buf [48]byte
-	n := runtime.Stack(buf[:], false)
-	var id uint64
-	for i := 10; i < n; i++ {
-		c := buf[i]
-		if c < '0' || c > '9' {
-			break
+func goid() uint64 { return uint64(getg()) }
+
+//go:norace
+func (s *Sim) g(i int) *G {
+	c := s.gchunks[i/gChunk]
+	return &c[i%gChunk]
+}
+
+//go:norace
+func (s *Sim) tabEntry(h uint64, create bool) *tabEntry {
+	c := s.tchunks[h/tChunk]
+	if c == nil {
+		if !create {
+			return nil
 		}
-		id = id*10 + uint64(c-'0')
+		c = new([tChunk]tabEntry)
+		s.tchunks[h/tChunk] = c
 	}
-	return id
+	return &c[h%tChunk]
 }
 
 //go:norace
 func (s *Sim) lookup(id uint64) *G {
-	h := (id * 0x9E3779B97F4A7C15) >> 49 // 15 bits
+	h := ((id >> 6) * 0x9E3779B97F4A7C15) >> (64 - tabBits)
 	s.mu.Lock()
 	for {
-		e := &s.tab[h]
-		if e.goid == id {
-			s.mu.Unlock()
-			return &s.gs[e.idx]
-		}
-		if e.goid == 0 {
+		e := s.tabEntry(h, false)
+		if e == nil || e.goid == 0 {
 			s.mu.Unlock()
 			return nil
+		}
+		if e.goid == id {
+			g := s.g(int(e.idx))
+			s.mu.Unlock()
+			if g.state == stDone {
+				return nil // a reused g: whoever runs on it now is not simulated
+			}
+			return g
 		}
 		h = (h + 1) & (tabSize - 1)
 	}
@@ -228,11 +253,11 @@ func (s *Sim) lookup(id uint64) *G {
 
 //go:norace
 func (s *Sim) register(id uint64, idx int) {
-	h := (id * 0x9E3779B97F4A7C15) >> 49
+	h := ((id >> 6) * 0x9E3779B97F4A7C15) >> (64 - tabBits)
 	s.mu.Lock()
 	for {
-		e := &s.tab[h]
-		if e.goid == 0 {
+		e := s.tabEntry(h, true)
+		if e.goid == 0 || e.goid == id {
 			e.goid = id
 			e.idx = int32(idx)
 			break
@@ -327,9 +352,27 @@ func (s *Sim) spawn(parent *G, site string, fn func(), daemon bool) *G {
 	if s.ng >= MaxG {
 		panic("simrt: too many goroutines")
 	}
-	g := &s.gs[s.ng]
+	if s.gchunks[s.ng/gChunk] == nil {
+		s.gchunks[s.ng/gChunk] = new([gChunk]G)
+	}
+	g := s.g(s.ng)
 	g.idx = s.ng
 	s.ng++
+	// live list (manual growth: no append in norace code)
+	s.mu.Lock()
+	if s.nlive >= len(s.live) {
+		nl := make([]int32, 2*len(s.live)+64)
+		for i := 0; i < s.nlive; i++ {
+			nl[i] = s.live[i]
+		}
+		s.live = nl
+		s.enabled = make([]int32, len(nl))
+		s.cand = make([]int32, len(nl))
+	}
+	g.livePos = int32(s.nlive)
+	s.live[s.nlive] = int32(g.idx)
+	s.nlive++
+	s.mu.Unlock()
 	if parent == nil {
 		g.Name = "m"
 	} else {
@@ -383,8 +426,15 @@ func (s *Sim) recordPanic(g *G, r any, stack string) {
 //go:norace
 func (s *Sim) finish(g *G) {
 	raceDisable()
+	s.mu.Lock()
 	g.state = stDone
 	g.fn = nil
+	// swap-remove from the live list
+	last := s.live[s.nlive-1]
+	s.live[g.livePos] = last
+	s.g(int(last)).livePos = g.livePos
+	s.nlive--
+	s.mu.Unlock()
 	select {
 	case s.wakeSched <- struct{}{}:
 	default:
@@ -444,6 +494,9 @@ func Yield(class uint8) {
 	if s.poison {
 		runtime.Goexit()
 	}
+	if g.noYield > 0 {
+		return
+	}
 	if class > ClassLock && s.cfg.ClassMask&(1<<class) == 0 {
 		return
 	}
@@ -496,10 +549,10 @@ func Wake(key unsafe.Pointer) {
 		return
 	}
 	raceDisable()
-	k := uintptr(key)
-	for i := 0; i < s.ng; i++ {
-		g := &s.gs[i]
-		if (g.state == stBlocked || g.state == stBlockedOrStall) && g.key == k {
+	kk := uintptr(key)
+	for k := 0; k < s.nlive; k++ {
+		g := s.g(int(s.live[k]))
+		if (g.state == stBlocked || g.state == stBlockedOrStall) && g.key == kk {
 			g.state = stParked
 		}
 	}
@@ -543,6 +596,22 @@ func WaitOrStall(key unsafe.Pointer) bool {
 	g.stalled = false
 	s.park(g, stBlockedOrStall, uintptr(key), ClassApp, 0)
 	return !g.stalled
+}
+
+// Atomically runs f without any scheduling point: every yield inside returns
+// at once. f must not block (it may take locks that no parked goroutine holds).
+// Used by harness monitors to take a consistent snapshot of several variables.
+//
+//go:norace
+func Atomically(f func()) {
+	_, g := self()
+	if g == nil {
+		f()
+		return
+	}
+	g.noYield++
+	defer func() { g.noYield-- }()
+	f()
 }
 
 // Sleep sleeps in virtual time and yields on wake-up.
@@ -615,29 +684,28 @@ func VirtualNow() time.Duration {
 //go:norace
 func (s *Sim) liveCount() int {
 	n := 0
-	for i := 0; i < s.ng; i++ {
-		if st := s.gs[i].state; st != stDone && st != stFree {
-			n++
-		}
-	}
+	n = s.nlive
 	return n
 }
 
 //go:norace
 func (s *Sim) find(st int32) *G {
-	for i := 0; i < s.ng; i++ {
-		if s.gs[i].state == st {
-			return &s.gs[i]
+	// lowest index first (the director, goroutine 0, is found before others)
+	var best *G
+	for k := 0; k < s.nlive; k++ {
+		g := s.g(int(s.live[k]))
+		if g.state == st && (best == nil || g.idx < best.idx) {
+			best = g
 		}
 	}
-	return nil
+	return best
 }
 
 // less orders goroutines by structural name (length first keeps it cheap and total).
 //
 //go:norace
 func (s *Sim) less(a, b int32) bool {
-	x, y := s.gs[a].Name, s.gs[b].Name
+	x, y := s.g(int(a)).Name, s.g(int(b)).Name
 	if len(x) != len(y) {
 		return len(x) < len(y)
 	}
@@ -647,11 +715,12 @@ func (s *Sim) less(a, b int32) bool {
 //go:norace
 func (s *Sim) collect() int {
 	n := 0
-	for i := 0; i < s.ng; i++ {
-		if s.gs[i].state == stParked {
+	for k := 0; k < s.nlive; k++ {
+		i := s.live[k]
+		if s.g(int(i)).state == stParked {
 			// insertion sort by name
 			j := n
-			s.enabled[n] = int32(i)
+			s.enabled[n] = i
 			n++
 			for j > 0 && s.less(s.enabled[j], s.enabled[j-1]) {
 				s.enabled[j], s.enabled[j-1] = s.enabled[j-1], s.enabled[j]
@@ -688,9 +757,9 @@ func (s *Sim) pick() int32 {
 	case PolStarve:
 		// goroutines matching the prefix are offered only if nothing else is enabled
 		m := 0
-		cand := &s.cand
+		cand := s.cand
 		for i := 0; i < n; i++ {
-			if !hasPrefix(s.gs[s.enabled[i]].Name, s.cfg.StarveMatch) {
+			if !hasPrefix(s.g(int(s.enabled[i])).Name, s.cfg.StarveMatch) {
 				cand[m] = s.enabled[i]
 				m++
 			}
@@ -705,17 +774,17 @@ func (s *Sim) pick() int32 {
 		// change points lower the priority of the running goroutine
 		for s.pctNext < s.cfg.PCTDepth && s.steps >= s.pctChange[s.pctNext] {
 			if s.last >= 0 {
-				s.gs[s.last].prio = -int(s.pctNext) - 1
+				s.g(s.last).prio = -int(s.pctNext) - 1
 			}
 			s.pctNext++
 		}
 		best := int32(-1)
 		for i := 0; i < n; i++ {
-			g := &s.gs[s.enabled[i]]
+			g := s.g(int(s.enabled[i]))
 			if g.prio == 0 {
 				g.prio = 1 + s.ch.Intn(1<<20, "prio")
 			}
-			if best < 0 || g.prio > s.gs[best].prio {
+			if best < 0 || g.prio > s.g(int(best)).prio {
 				best = s.enabled[i]
 			}
 		}
@@ -784,7 +853,7 @@ func (s *Sim) ClassCounts() [numClasses]int64 { return s.classCount }
 func (s *Sim) Log() []StepRec { return s.log }
 
 // GName returns the name of goroutine i.
-func (s *Sim) GName(i int32) string { return s.gs[i].Name }
+func (s *Sim) GName(i int32) string { return s.g(int(i)).Name }
 
 // Run executes main as the first simulated goroutine and schedules until every
 // simulated goroutine has finished, the run stalls, or the budget is exhausted.
@@ -855,7 +924,7 @@ func (s *Sim) Run(main func()) *Result {
 			break
 		}
 		i := s.pick()
-		g := &s.gs[i]
+		g := s.g(int(i))
 		s.steps++
 		s.classCount[g.class]++
 		s.digest = (s.digest ^ uint64(i)) * 1099511628211
@@ -878,8 +947,8 @@ func (s *Sim) Run(main func()) *Result {
 	s.res.SwitchPairs = s.npairs
 	s.res.UnknownYields = s.unknownYields.Load()
 	s.res.UnknownSpawns = s.unknownSpawns.Load()
-	for i := 0; i < s.ng; i++ {
-		g := &s.gs[i]
+	for k := 0; k < s.nlive; k++ {
+		g := s.g(int(s.live[k]))
 		if g.state != stDone && !g.Daemon {
 			s.res.Live = append(s.res.Live, g)
 		}
@@ -921,14 +990,26 @@ func (s *Sim) advance() bool {
 //go:norace
 func (s *Sim) teardown() {
 	s.poison = true
-	for i := 0; i < s.ng; i++ {
-		g := &s.gs[i]
-		switch g.state {
-		case stParked, stBlocked, stIdleWait, stStallWait, stBlockedOrStall:
-			g.state = stOut
-			g.release <- struct{}{}
-			synctest.Wait()
+	// release the reachable goroutines one at a time (each exits, which edits
+	// the live list, so search afresh every time)
+	for rounds := 0; rounds < MaxG; rounds++ {
+		var g *G
+		for k := 0; k < s.nlive; k++ {
+			c := s.g(int(s.live[k]))
+			switch c.state {
+			case stParked, stBlocked, stIdleWait, stStallWait, stBlockedOrStall:
+				g = c
+			}
+			if g != nil {
+				break
+			}
 		}
+		if g == nil {
+			return
+		}
+		g.state = stOut
+		g.release <- struct{}{}
+		synctest.Wait()
 	}
 }
 
@@ -951,8 +1032,8 @@ func LiveNonDaemon() int {
 		return 0
 	}
 	n := 0
-	for i := 0; i < s.ng; i++ {
-		g := &s.gs[i]
+	for k := 0; k < s.nlive; k++ {
+		g := s.g(int(s.live[k]))
 		if g.state != stDone && g.state != stFree && !g.Daemon {
 			n++
 		}
